@@ -363,7 +363,9 @@ fn eval_event(t: &Tables, pcs: &[(u32, u32)], stm: u32, fam: &str, rng: &mut Std
     v3.white_king_location = point_of(rng.gen_range(1..=64));
     v3.black_king_location = point_of(rng.gen_range(1..=64));
     vars.push(get_evaluation(&v3));
-    json!({"ev": "eval", "fam": fam, "p": t.state(&b), "e": e, "mirror": t.state(&m), "e_m": e_m, "e_swap": e_swap, "e_swap_stalekey": e_swap_stalekey, "e_again": e_again, "e_var": vars})
+    // "mate": the magnitude the search itself reserves for mate scores (hook verif_mate_score): the bound is relative to it
+    json!({"ev": "eval", "fam": fam, "p": t.state(&b), "e": e, "mirror": t.state(&m), "e_m": e_m, "e_swap": e_swap, "e_swap_stalekey": e_swap_stalekey, "e_again": e_again, "e_var": vars,
+           "mate": crate::engine::verif_mate_score()})
 }
 
 pub fn eval_events(t: &Tables, dir: &str, nshards: usize, seed: u64, randoms: u64) -> Value {
